@@ -9,10 +9,18 @@ format), the public routine is called and every column of every row is compared.
 Direction B: seeded random decimal trajectories (T <= 12, N <= 12, 2-D/3-D, rectangular boxes,
 all modes, masks, neighbour lists) are run through the real code; TraceRelaxation.tla carries the
 loop state per record, decides the discrete observables and prints the expected rows as terms.
+Scope audit (part "ext" of MC_Relaxation and the trace generator): constant triclinic cells with every
+periodic mask and fractional displacements near +-1/2; call histories on one object (InvSession / the
+session variable of TraceRelaxation); long trajectories (T = 40..70 through the loop machine, T = 260
+with the direct operator RowsAt) and many particles; renderings of the arguments decided by the
+specification's scope (aux.render) - diameters map in ascending / descending / rotated insertion order
+with absent species, integer-valued diameters, mask arrays of bool / int8 / int64 / strided / Fortran
+layout, dt as int, large timestep labels, decimal time steps with sq4's t given as the decimal literal.
 Python renders inputs, calls the API, evaluates terms and compares; it holds no definition.
 """
 import json
 import math
+from fractions import Fraction
 import os
 import random
 import shutil
@@ -35,7 +43,12 @@ COLS = ["t", "isf", "Qt", "X4_Qt", "msd", "alpha2"]
 # rendering of abstract inputs
 # --------------------------------------------------------------------------
 
-def make_snapshots(c, positions, ts):
+PLAIN = {"diaOrder": "asc", "diaDrop": 1, "diaInt": 0, "mask": "bool", "dtInt": 0, "tsoff": 0}
+
+
+def make_snapshots(c, positions, ts, tsoff=0):
+    """Every frame carries its own (equal) copy of the cell arrays and of the type array, as the dump reader
+    delivers them; timestep labels are offset by tsoff * 10^9 (large labels)."""
     from PyMatterSim.reader.reader_utils import SingleSnapshot, Snapshots
     S = float(c["S"])
     H = np.array(c["H"], dtype=float) / S
@@ -43,7 +56,7 @@ def make_snapshots(c, positions, ts):
     snaps = []
     for f in range(c["T"]):
         snaps.append(SingleSnapshot(
-            timestep=int(ts[f]), nparticle=c["N"], particle_type=np.array(c["types"], dtype=int),
+            timestep=int(ts[f]) + int(tsoff) * 10 ** 9, nparticle=c["N"], particle_type=np.array(c["types"], dtype=int),
             positions=np.array(positions[f], dtype=float) / S, boxlength=L.copy(),
             boxbounds=np.column_stack((np.zeros(c["d"]), L)), realbounds=None, hmatrix=H.copy()))
     return Snapshots(nsnapshots=len(snaps), snapshots=snaps)
@@ -58,74 +71,137 @@ def write_neighbor_file(c, path):
 
 
 def q_value(q):
+    if q["pi"] != 1 and q["d"] == 1:
+        return int(q["n"])                           # an integer wavenumber is passed as a Python int
     v = q["n"] / q["d"]
     return v * math.pi if q["pi"] == 1 else v
 
 
-def build(c, ts, variant, tmpdir):
-    """-> (object, kwargs of the analysis call that depend on the case)"""
-    from PyMatterSim.dynamic.dynamics import Dynamics, LogDynamics
-    cls = LogDynamics if variant == "log" else Dynamics
+def diameters_map(c, render):
+    """The diameters dict in the insertion order / value types the rendering asks for."""
+    keys = list(range(1, len(c["dia"]) + 1))
+    if render["diaDrop"] == 1:
+        present = set(c["types"])
+        keys = [k for k in keys if k in present]
+    if render["diaOrder"] == "desc":
+        keys = keys[::-1]
+    elif render["diaOrder"] == "rot":
+        keys = keys[1:] + keys[:1]
+    out = {}
+    for k in keys:
+        n, d = c["dia"][k - 1]
+        out[k] = int(n) if (render["diaInt"] == 1 and d == 1) else n / d
+    return out
+
+
+def mask_array(m, kind):
+    """A 0/1 selection (list) as the array flavour the rendering asks for."""
+    b = np.array(m, dtype=bool)
+    if kind == "int8":
+        return b.astype(np.int8)
+    if kind == "int64":
+        return b.astype(np.int64)
+    if kind == "strided":                            # a non-contiguous view: every second column of a wider array
+        big = np.zeros(b.shape[:-1] + (2 * b.shape[-1] + 1,), dtype=bool)
+        big[..., 1::2] = b
+        v = big[..., 1::2]
+        assert not v.flags["C_CONTIGUOUS"] or v.size <= 1
+        return v
+    if kind == "fortran":
+        return np.asfortranarray(b)
+    return b
+
+
+def dt_value(dt, render):
+    if render["dtInt"] == 1 and dt[1] == 1:
+        return int(dt[0])
+    return dt[0] / dt[1]
+
+
+def ctor_kwargs(c, ts, tmpdir, render, dt=None, force_dt=False):
+    """Constructor arguments shared by every object built from the case (the Snapshots objects are shared)."""
     kw = {}
     if c["mode"] in ("xu", "both"):
-        kw["xu_snapshots"] = make_snapshots(c, c["xu"], ts)
+        kw["xu_snapshots"] = make_snapshots(c, c["xu"], ts, render["tsoff"])
     if c["mode"] in ("x", "both"):
-        kw["x_snapshots"] = make_snapshots(c, c["x"], ts)
+        kw["x_snapshots"] = make_snapshots(c, c["x"], ts, render["tsoff"])
     kw["ppp"] = np.array(c["ppp"])
-    kw["diameters"] = {1: c["dia"][0][0] / c["dia"][0][1], 2: c["dia"][1][0] / c["dia"][1][1]}
+    kw["diameters"] = diameters_map(c, render)
     kw["a"] = c["a"][0] / c["a"][1]
-    kw["cal_type"] = c["cal"]
     if c["hasNb"] == 1:
         path = os.path.join(tmpdir, "nb.dat")
         write_neighbor_file(c, path)
         kw["neighborfile"] = path
         if c["nmax"] != 30:
             kw["max_neighbors"] = c["nmax"]
+    if dt is not None:
+        dtv = dt_value(dt, render)
+        if force_dt or dtv != 0.002:
+            kw["dt"] = dtv                           # else: the documented default
+    return kw
+
+
+def build(c, ts, variant, tmpdir, render=PLAIN):
+    """-> (class, kwargs of the constructor that depend on the case)"""
+    from PyMatterSim.dynamic.dynamics import Dynamics, LogDynamics
+    cls = LogDynamics if variant == "log" else Dynamics
+    kw = ctor_kwargs(c, ts, tmpdir, render)
+    kw["cal_type"] = c["cal"]
     return cls, kw
 
 
-def cond_array(c, variant):
+def cond_array(c, variant, render=PLAIN):
     if c["hasCond"] != 1:
         return None
-    m = np.array(c["cond"], dtype=bool)
-    return m[0] if variant == "log" else m
+    m = c["cond"][0] if variant == "log" else c["cond"]
+    return mask_array(m, render["mask"])
 
 
-def call_relaxation(c, ts, dt, variant, tmpdir, outputfile=""):
-    cls, kw = build(c, ts, variant, tmpdir)
-    dtv = dt[0] / dt[1]
+def relax_kwargs(c, variant, render=PLAIN, outputfile=""):
+    rk = {}
+    if not (c["q"]["pi"] == 1 and c["q"]["n"] == 2 and c["q"]["d"] == 1):
+        rk["qconst"] = q_value(c["q"])               # else: the documented default 2 pi
+    cond = cond_array(c, variant, render)
+    if cond is not None:
+        rk["condition"] = cond
+    if outputfile:
+        rk["outputfile"] = outputfile
+    return rk
+
+
+def sq4_kwargs(c, ts, dt, tnum, numofq, render=PLAIN, outputfile=""):
+    """t = tnum/10 sampling intervals, written the way a user writes it: the decimal literal of
+    (tnum/10) * interval * dt, i.e. the double nearest to the exact product (not a product of doubles)."""
+    t_exact = Fraction(tnum, 10) * (ts[1] - ts[0]) * Fraction(dt[0], dt[1])
+    t = int(t_exact) if (render["dtInt"] == 1 and t_exact.denominator == 1) else float(t_exact)
+    Lmax = max(c["H"][k][k] for k in range(c["d"])) / float(c["S"])
+    sk = {"t": t, "qrange": (numofq + 0.5) * math.pi / Lmax}   # numofq = int(qrange * Lmax / pi), half a unit of margin
+    cond = cond_array(c, "lin", render)
+    if cond is not None:
+        sk["condition"] = cond
+    if outputfile:
+        sk["outputfile"] = outputfile
+    return sk
+
+
+def call_relaxation(c, ts, dt, variant, tmpdir, outputfile="", render=PLAIN):
+    cls, kw = build(c, ts, variant, tmpdir, render)
+    dtv = dt_value(dt, render)
     if dtv != 0.002:
         kw["dt"] = dtv
     with warnings.catch_warnings():
         warnings.simplefilter("ignore")
         obj = cls(**kw)
-        rk = {}
-        if not (c["q"]["pi"] == 1 and c["q"]["n"] == 2 and c["q"]["d"] == 1):
-            rk["qconst"] = q_value(c["q"])           # else: the documented default 2 pi
-        cond = cond_array(c, variant)
-        if cond is not None:
-            rk["condition"] = cond
-        if outputfile:
-            rk["outputfile"] = outputfile
-        return obj.relaxation(**rk)
+        return obj.relaxation(**relax_kwargs(c, variant, render, outputfile))
 
 
-def call_sq4(c, ts, dt, tnum, numofq, tmpdir, outputfile=""):
-    cls, kw = build(c, ts, "lin", tmpdir)
-    dtv = dt[0] / dt[1]
-    kw["dt"] = dtv
-    t1 = (ts[1] - ts[0]) * dtv
-    t = tnum / 10.0 * t1
-    Lmax = max(c["H"][k][k] for k in range(c["d"])) / float(c["S"])
-    qrange = (numofq + 0.5) * math.pi / Lmax       # numofq = int(qrange * Lmax / pi), half a unit of margin
+def call_sq4(c, ts, dt, tnum, numofq, tmpdir, outputfile="", render=PLAIN):
+    cls, kw = build(c, ts, "lin", tmpdir, render)
+    kw["dt"] = dt_value(dt, render)
     with warnings.catch_warnings():
         warnings.simplefilter("ignore")
         obj = cls(**kw)
-        cond = cond_array(c, "lin")
-        sk = {"outputfile": outputfile} if outputfile else {}
-        if cond is None:
-            return obj.sq4(t=t, qrange=qrange, **sk)
-        return obj.sq4(t=t, qrange=qrange, condition=cond, **sk)
+        return obj.sq4(**sq4_kwargs(c, ts, dt, tnum, numofq, render, outputfile))
 
 
 def brief(c):
